@@ -73,6 +73,11 @@ Grammars ==
          \cup
          { [m |-> [ty |-> "", e |-> Bin("seq", S(a), S(a))], r1 |-> [ty |-> "", e |-> S(a)], NEWLINE |-> [ty |-> "", e |-> x],
             WHITESPACE |-> [ty |-> "_", e |-> w]] : x \in ShadowBodies, w \in { NL, Bin("alt", S(sp), NL), Bin("seq", NL, S(sp)) } }
+    [] Slice = "wsna" ->   \* skip rules that refer to rules of every modifier whose bodies have implicit skip points
+         { [m |-> [ty |-> "", e |-> Bin("seq", S(a), S(a))], r1 |-> [ty |-> t, e |-> x], WHITESPACE |-> [ty |-> wt, e |-> w]] :
+             t \in {"", "_", "@", "$", "!"}, wt \in {"_", "", "!"},
+             x \in { Bin("seq", S(<<>>), S(sp)), Bin("seq", Un("opt", S(a)), S(sp)), Un("rep1", S(sp)), Bin("seq", S(sp), Un("opt", S(sp))), S(sp) },
+             w \in { Id("r1"), Bin("alt", Id("r1"), S(a)), Bin("seq", S(sp), Id("r1")) } }
     [] Slice = "twice" ->
          { [m |-> [ty |-> "", e |-> e], r1 |-> [ty |-> "", e |-> x]] : e \in TwiceExprs, x \in TwiceAux }
          \cup
@@ -106,6 +111,7 @@ Spec == Init /\ [][Next]_g
 Emit ==
   LET w == DivWitness(g, {97, 32}, 3, 30) IN
   PrintT(ToJson([g |-> g, diverges |-> w # <<>>,
+                 cause |-> IF w # <<>> /\ SkipReentryOnly(g, w, 30) THEN "skip rule reaches a non-atomic rule that skips implicitly" ELSE "",
                  witness |-> IF w = <<>> THEN [start |-> "", inp |-> <<>>] ELSE [start |-> w[1], inp |-> w[2]],
                  guarded |-> Guarded(g)]))
 ===============================================================================
